@@ -3,7 +3,7 @@
    runner and by vm_compute inside Coq (Cases_*.v). *)
 From Coq Require Import List NArith ZArith Bool String.
 From Coq.Strings Require Import Byte.
-From OAP Require Import Base.Bytes Base.Res Base.Text Gen.Consts Model.Handshake Model.Metadata Model.Header Model.Frame Model.Stream Model.World Model.Ids Model.Waiters Model.Dispatch Model.WritePath Model.Recovery Model.Keepalive Model.WsBridge.
+From OAP Require Import Base.Bytes Base.Res Base.Text Gen.Consts Model.Handshake Model.Metadata Model.Header Model.Frame Model.Stream Model.World Model.Ids Model.Waiters Model.Dispatch Model.WritePath Model.Recovery Model.Keepalive Model.WsBridge Model.Life.
 Import ListNotations.
 Local Open Scope N_scope.
 
@@ -628,6 +628,44 @@ Definition run_wb (op : bytes) (args0 : list bytes) : bytes :=
   | None => bad
   end.
 
+(* ---- lifecycle (C06/C14/C16) ----
+   lf.run <max> <action> ...   UC user close | CL current conn lost | RB retry loop head | DD.<0|1> dial done |
+                               AD.<0|1> auth done | DO request write | X.<i>.<r|w|d> goroutine of conn i exits
+   output: closed=<b> cb=<n> recon=<n> conns=<n> open=<n> live=<n>   or PANIC
+   lf.rnw: the same without open= (WebSocket peer: half-open sockets are not probed) *)
+Definition parse_lact (e : bytes) : option lact :=
+  if bytes_eqb e (str "UC") then Some LUserClose
+  else if bytes_eqb e (str "CL") then Some LConnLost
+  else if bytes_eqb e (str "RB") then Some LRetryBegin
+  else if bytes_eqb e (str "DO") then Some LDo
+  else match split_on "."%byte e with
+       | [k; a] => if bytes_eqb k (str "DD") then option_map LDialDone (unbool a)
+                   else if bytes_eqb k (str "AD") then option_map LAuthDone (unbool a) else None
+       | [k; i; g] => if bytes_eqb k (str "X") then
+                        obind (undec i) (fun i =>
+                          if bytes_eqb g (str "r") then Some (LExit (N.to_nat i) GReader)
+                          else if bytes_eqb g (str "w") then Some (LExit (N.to_nat i) GWriter)
+                          else if bytes_eqb g (str "d") then Some (LExit (N.to_nat i) GDisp) else None)
+                      else None
+       | _ => None
+       end.
+Definition run_lf (op : bytes) (args : list bytes) : bytes :=
+  if bytes_eqb op (str "lf.run") || bytes_eqb op (str "lf.rnw") then
+    match args with
+    | mx :: evs =>
+        match undec mx, omap_all parse_lact evs with
+        | Some mx, Some acts =>
+            match lrun (l0 mx) acts with
+            | Ok s => str "closed=" ++ bool_s (l_closed s) ++ str " cb=" ++ decn (l_cb s) ++ str " recon=" ++ decn (l_recon_cb s)
+                      ++ str " conns=" ++ decn (List.length (l_conns s))
+                      ++ (if bytes_eqb op (str "lf.run") then str " open=" ++ decn (open_conns s) else [])
+                      ++ str " live=" ++ decn (live_goroutines s)
+            | _ => str "PANIC"
+            end
+        | _, _ => bad end
+    | _ => bad end
+  else bad.
+
 Definition run_line (line : bytes) : bytes :=
   match words line with
   | op :: args =>
@@ -642,6 +680,7 @@ Definition run_line (line : bytes) : bytes :=
       else if starts_with (str "rc.") op then run_rc op args
       else if starts_with (str "ka.") op then run_ka op args
       else if starts_with (str "wb.") op then run_wb op args
+      else if starts_with (str "lf.") op then run_lf op args
       else bad
   | [] => bad
   end.
